@@ -3,7 +3,7 @@ From Coq Require Import String.
 From Coq Require Import List Arith ZArith.
 Import ListNotations.
 From YP Require Import Base.Str Term.Term Unify.Unify Lang.Ast Comp.IR Comp.CompileBody Comp.CompileClause Comp.CompileTotal
-  Sem.Res Sem.RefSem Sem.IRSem Sem.ControlCorrect Sem.Machine Sem.ClauseSem Sem.ProgramCorrect Sem.SpecLemmas.
+  Sem.Res Sem.RefSem Sem.IRSem Sem.ControlCorrect Sem.Machine Sem.ClauseSem Sem.ProgramCorrect Sem.SpecLemmas Sem.CutBranchSpec.
 
 (* For every clause body (cuts at top level, in branches of a disjunction, in then/else branches; a cut inside
    a condition or under \+ is local to it), for every interpretation of the called goals (all solution counts) and
@@ -68,6 +68,54 @@ Theorem C05_cut_first : forall (S : Type) (I : str -> list sterm -> S -> list S 
 Proof. exact cut_first. Qed.
 Print Assumptions C05_cut_first.
 
+(* A cut that is not a top-level goal of the body.  ( A, ! ; B ): the first answer of A only, B is not tried, the
+   clause is cut (FCut is what stops the clause loop: C05_cut_prunes_later_clauses); B runs iff A has no answer. *)
+Theorem C05_cut_in_disjunction_branch : forall (S : Type) (I : str -> list sterm -> S -> list S * bool) A B s,
+  sem I (BOr (BAnd A BCut) B) s =
+  match sem I A s with
+  | (x :: _, _) => ([x], FCut)
+  | ([], FNorm) => sem I B s
+  | ([], g) => ([], g)
+  end.
+Proof. exact cut_in_disjunction_branch. Qed.
+Print Assumptions C05_cut_in_disjunction_branch.
+
+(* ( C -> ! ; E ): commit to the first answer of C and cut the clause; E runs iff C has no answer *)
+Theorem C05_cut_in_then_branch : forall (S : Type) (I : str -> list sterm -> S -> list S * bool) C E s,
+  sem I (BOr (BIf C BCut) E) s =
+  match opaque (sem I C s) with
+  | (x :: _, _) => ([x], FCut)
+  | ([], FNorm) => sem I E s
+  | ([], f) => ([], f)
+  end.
+Proof. exact cut_in_then_branch. Qed.
+Print Assumptions C05_cut_in_then_branch.
+
+(* ( C -> T ; ! ): the cut is reached iff C has no answer *)
+Theorem C05_cut_in_else_branch : forall (S : Type) (I : str -> list sterm -> S -> list S * bool) C T s,
+  sem I (BOr (BIf C T) BCut) s =
+  match opaque (sem I C s) with
+  | (x :: _, _) => sem I T x
+  | ([], FNorm) => ([s], FCut)
+  | ([], f) => ([], f)
+  end.
+Proof. exact cut_in_else_branch. Qed.
+Print Assumptions C05_cut_in_else_branch.
+
+(* whatever construct A ended by cut (a cut nested in branches, at any depth), the goals B to its right do not make
+   the cut forgotten: the body never ends normally, so the later clauses are never tried, ... *)
+Theorem C05_cut_survives_continuation : forall (S : Type) (I : str -> list sterm -> S -> list S * bool) A B s xs,
+  sem I A s = (xs, FCut) -> snd (sem I (BAnd A B) s) <> FNorm.
+Proof. exact cut_survives_continuation. Qed.
+Print Assumptions C05_cut_survives_continuation.
+
+(* ... and the goals to the right still backtrack normally: all their answers, for every answer of A, in order *)
+Theorem C05_cut_continuation_backtracks : forall (S : Type) (I : str -> list sterm -> S -> list S * bool) A B s xs,
+  sem I A s = (xs, FCut) -> (forall x, In x xs -> snd (sem I B x) = FNorm) ->
+  sem I (BAnd A B) s = (flat_map (fun x => fst (sem I B x)) xs, FCut).
+Proof. exact cut_continuation_backtracks. Qed.
+Print Assumptions C05_cut_continuation_backtracks.
+
 (* non-vacuity:  t(X,Y) :- q(X), !, q(Y).   t(z,z).   q(a). q(b).   gives (a,a), (a,b) only *)
 Local Open Scope string_scope.
 Definition cut_prog : program :=
@@ -86,4 +134,41 @@ Proof.
   split.
   - repeat constructor.
   - eexists. split; [vm_compute; reflexivity|]. vm_compute. reflexivity.
+Qed.
+
+(* non-vacuity of the branch theorems, on the compiled-code model: a cut in a then branch behind a long run of goals, and the
+   cut of a recursive predicate's base clause that must not touch the callers' alternatives
+     t(X,Y) :- s, s, s, s, s, s, s, s, s, s, s, s, q(X), ( X = a -> ! ; true ), q(Y).   t(z,z).       (a,a), (a,b) only
+     r(X,X) :- !.   r(X,Z) :- e(X,Y), r(Y,Z).   e(a,b). e(a,c). e(b,d). e(c,d).      ?- r(a,d)  has two answers *)
+Definition conj_of (gs : list body) (last : body) : body := fold_right BAnd last gs.
+Definition long_prog : program :=
+  [ {| c_name := d "t"; c_args := [SVar (d "X"); SVar (d "Y")];
+       c_body := conj_of (repeat (BCall (d "s") []) 12 ++
+                          [BCall (d "q") [SVar (d "X")];
+                           BOr (BIf (BCall (d "=") [SVar (d "X"); SAtom (d "a")]) BCut) BTrue])
+                         (BCall (d "q") [SVar (d "Y")]) |};
+    {| c_name := d "t"; c_args := [SAtom (d "z"); SAtom (d "z")]; c_body := BTrue |};
+    {| c_name := d "s"; c_args := []; c_body := BTrue |};
+    {| c_name := d "q"; c_args := [SAtom (d "a")]; c_body := BTrue |};
+    {| c_name := d "q"; c_args := [SAtom (d "b")]; c_body := BTrue |} ].
+Definition rec_prog : program :=
+  [ {| c_name := d "r"; c_args := [SVar (d "X"); SVar (d "X")]; c_body := BCut |};
+    {| c_name := d "r"; c_args := [SVar (d "X"); SVar (d "Z")];
+       c_body := BAnd (BCall (d "e") [SVar (d "X"); SVar (d "Y")]) (BCall (d "r") [SVar (d "Y"); SVar (d "Z")]) |};
+    {| c_name := d "e"; c_args := [SAtom (d "a"); SAtom (d "b")]; c_body := BTrue |};
+    {| c_name := d "e"; c_args := [SAtom (d "a"); SAtom (d "c")]; c_body := BTrue |};
+    {| c_name := d "e"; c_args := [SAtom (d "b"); SAtom (d "d")]; c_body := BTrue |};
+    {| c_name := d "e"; c_args := [SAtom (d "c"); SAtom (d "d")]; c_body := BTrue |} ].
+Example C05_nonvacuous_shapes :
+  (exists ir, compile_program long_prog = Some ir /\
+     map (fun x => (den (sto x) (TVar 0), den (sto x) (TVar 1)))
+         (fst (query 10 ir (d "t") [TVar 0; TVar 1] {| sto := []; nxt := 2 |}))
+     = [(TAtom (d "a"), TAtom (d "a")); (TAtom (d "a"), TAtom (d "b"))]) /\
+  (exists ir, compile_program rec_prog = Some ir /\
+     length (fst (query 10 ir (d "r") [TAtom (d "a"); TAtom (d "d")] {| sto := []; nxt := 0 |})) = 2 /\
+     length (fst (query 10 ir (d "r") [TAtom (d "a"); TVar 0] {| sto := []; nxt := 1 |})) = 1).
+Proof.
+  split.
+  - eexists. split; [vm_compute; reflexivity|]. vm_compute. reflexivity.
+  - eexists. split; [vm_compute; reflexivity|]. split; vm_compute; reflexivity.
 Qed.
